@@ -18,3 +18,5 @@ Definition pf_btc := Eval vm_compute in failing btc_prop cases_btc.
 Print pf_btc.
 Definition pf_btcb := Eval vm_compute in failing btcb_prop cases_btcb.
 Print pf_btcb.
+Definition pf_api := Eval vm_compute in failing api_prop cases_api.
+Print pf_api.
